@@ -369,6 +369,45 @@ func main() {
 		if *replay != "" && (len(res.MonitorHits) > 0 || res.DisagreementCount > 0) {
 			os.Exit(1)
 		}
+	case "olvm":
+		fs := flag.NewFlagSet("olvm", flag.ExitOnError)
+		driver := fs.String("driver", "", "path to olpdriver")
+		seed := fs.Uint64("seed", 1, "seed")
+		hist := fs.Int("histories", 10, "histories")
+		blocks := fs.Int("blocks", 10, "blocks per history")
+		maxtx := fs.Int("maxtxs", 6, "max txs per block")
+		only := fs.Int("only", -1, "run only this case")
+		out := fs.String("out", "", "result json")
+		replay := fs.String("replay", "", "replay file written by ./check (its header names seed and case)")
+		fs.Parse(os.Args[2:])
+		stdout := apph.SilenceAppLogs()
+		opt := apph.OlvmOptions{Driver: *driver, Seed: *seed, Histories: *hist, Blocks: *blocks, MaxTxs: *maxtx, Only: *only}
+		if *replay != "" {
+			if err := apph.OlvmReplayOptions(*replay, &opt); err != nil {
+				fmt.Fprintln(stdout, "olh olvm:", err)
+				os.Exit(2)
+			}
+		}
+		res, err := apph.RunOlvm(opt)
+		apph.Cleanup()
+		if err != nil {
+			fmt.Fprintln(stdout, "olh olvm:", err)
+			os.Exit(2)
+		}
+		if *out != "" {
+			kv.WriteResult(*out, res)
+		}
+		fmt.Fprintf(stdout, "olvm: cases=%d nontrivial=%d disagreements=%d monitor=%v counters=%v\n", res.Evaluations, res.DistinctNontrivial, res.DisagreementCount, res.MonitorHitCount, res.Counters)
+		if *replay != "" || *only >= 0 {
+			apph.OlvmPrintFindings(stdout, res)
+			if len(res.MonitorHits) > 0 || res.DisagreementCount > 0 {
+				os.Exit(1)
+			}
+		}
+	case "olvm-smoke":
+		stdout := apph.SilenceAppLogs()
+		apph.OlvmSmoke(stdout)
+		apph.Cleanup()
 	default:
 		fmt.Fprintln(os.Stderr, "unknown engine", os.Args[1])
 		os.Exit(2)
